@@ -64,13 +64,15 @@ def gen_tree(rng, base="wl", depth=3, fan=4, big=False, tie=False, pidcounts=(0,
         if rng.random() < pref_p:
             x = rng.random()
             xa = {}
-            if x < 0.4:
+            if x < 0.3:
                 xa[rng.choice(["trusted.oomd_prefer", "user.oomd_prefer"])] = "1"
-            elif x < 0.8:
+            elif x < 0.6:
                 xa[rng.choice(["trusted.oomd_avoid", "user.oomd_avoid"])] = "1"
             else:
-                xa["trusted.oomd_prefer"] = "1"
-                xa["user.oomd_avoid"] = "1"
+                # any combination of the four marks (prefer wins over avoid whatever the namespace)
+                for name in ("trusted.oomd_prefer", "user.oomd_prefer", "trusted.oomd_avoid", "user.oomd_avoid"):
+                    if rng.random() < 0.5:
+                        xa[name] = "1"
             spec["xattrs"] = xa
         if rng.random() < oomgroup_p:
             spec["files"]["memory.oom.group"] = "1\n"
